@@ -3125,6 +3125,12 @@ psf_open_file (SF_PRIVATE *psf, SF_INFO *sfinfo)
 
 		/* A new file has no frames yet, whatever the caller left in SF_INFO. */
 		psf->sf.frames = 0 ;
+
+		/* The container code divides by the sample rate (HTK, SDS, VOC), so refuse a useless one before getting there. */
+		if (psf->sf.samplerate < 1)
+		{	error = SFE_BAD_SF_INFO ;
+			goto error_exit ;
+			} ;
 		if ((SF_CODEC (psf->sf.format)) == 0)
 		{	error = SFE_ZERO_MINOR_FORMAT ;
 			goto error_exit ;
